@@ -11,7 +11,8 @@ EXPLANATION = ("static analysis: every query entry point (53: methods of both cl
                "unknown node / one-shot iterator; both removal modes.  The interpreted answer must equal what the "
                "static graph of present pairs gives: filtered through the presence test with the right orientation, "
                "each interaction once, restricted through nbunch_iter, arguments forwarded by the wrappers.  "
-               "Observers are shown pure by the taint analysis.  Arithmetic on self-loops (degree/size) is not decided.")
+               "Observers are shown pure by the taint analysis.  On the shapes with a self-loop the counting queries are judged too: a "
+               "loop adds two to the degree of its node and counts as one interaction in size / number_of_interactions.")
 
 
 def run(repo: Repo, tier, rep: Report):
@@ -19,6 +20,7 @@ def run(repo: Repo, tier, rep: Report):
     for cls in CLASSES:
         qc.check_class(cls)
         qc.check_functions(cls)
+        qc.check_self_loops(cls)
     for k, f in sorted(qc.findings.items()):
         rep.finding("Q.query", f["construct"], f["key"], f["message"] + " [%d valuations]" % f["count"], line=f["line"], witness=f["witness"])
     for ep in sorted(qc.entry_points):
@@ -41,4 +43,4 @@ def run(repo: Repo, tier, rep: Report):
                "neighbours, the shapes cover: plain, reciprocal, self-loop, isolated node, unknown node in nbunch",
                "__presence_test is an uninterpreted predicate here; that it equals membership in the union of spans is C01/C08",
                "networkx nbunch_iter semantics (None = all nodes, single node, iterable filtered to nodes of the graph)",
-               "degree / size on graphs with self-loops and the 'density' formula are arithmetic and only checked on loop-free shapes")
+               "the 'density' formula is only checked on loop-free shapes")
